@@ -5,10 +5,13 @@
  *
  */
 
+#include <atomic>
+
 namespace opensmt {
 
 namespace {
-    bool globalStopFlag{false};
+    // Written by the requesting thread while solving threads poll it
+    std::atomic<bool> globalStopFlag{false};
 }
 
 void notifyGlobalStop() {
